@@ -34,8 +34,9 @@ def make_prepared(case):
     from cassandra.protocol import ColumnMetadata
     from cassandra.query import PreparedStatement
     tm = _types()
-    cm = [ColumnMetadata('ks', 'tb', n, tm[t]) for n, t in zip(case['names'], case['types'])]
-    return PreparedStatement.from_message(b'qid', cm, list(case['server_pk']), _ClusterMeta(case['table_pk']),
+    cm = [ColumnMetadata('ks', 'tb', 'c%d' % n, tm[t]) for n, t in zip(case['names'], case['types'])]
+    tpk = None if case['table_pk'] is None else ['c%d' % n for n in case['table_pk']]
+    return PreparedStatement.from_message(b'qid', cm, list(case['server_pk']), _ClusterMeta(tpk),
                                           'q', 'ks', case['pv'], [], None)
 
 
@@ -93,7 +94,7 @@ def run_impl(case):
         if inp[1] == [] and case.get('none_input'):
             vals = None
     else:
-        vals = dict((k, pyval(v)) for k, v in inp[1])
+        vals = dict(('c%d' % k, pyval(v)) for k, v in inp[1])
     try:
         bs = ps.bind(vals)
     except Exception as e:
@@ -115,7 +116,25 @@ def zl(v):
 
 
 def zlist(l):
-    return '[' + '; '.join(zl(x) for x in l) + ']'
+    """Gallina list literal; long constant runs are written `repeat v (Z.to_nat n)` (coqc parses huge literals slowly)"""
+    if len(l) <= 64:
+        return '[' + '; '.join(zl(x) for x in l) + ']'
+    segs, i, lit = [], 0, []
+    while i < len(l):
+        j = i
+        while j < len(l) and l[j] == l[i]:
+            j += 1
+        if j - i >= 32:
+            if lit:
+                segs.append('[' + '; '.join(zl(x) for x in lit) + ']')
+                lit = []
+            segs.append('repeat %s (Z.to_nat %d)' % (zl(l[i]), j - i))
+        else:
+            lit.extend(l[i:j])
+        i = j
+    if lit:
+        segs.append('[' + '; '.join(zl(x) for x in lit) + ']')
+    return '(' + ' ++ '.join(segs) + ')'
 
 
 def natlist(l):
